@@ -202,7 +202,12 @@ def observe_wmts_infos(app, g, rng, n, problems):
             continue
         rect = L.cells_rect(g, list(lv)[0], cells)
         n0 = len(app.info_log)
-        r = app.get(base + '&REQUEST=GetFeatureInfo&INFOFORMAT=text/plain&I=%d&J=%d' % (ci, cj))
+        rest = (len(infos) + _) % 2 == 1
+        if rest:
+            # the RESTful form of the same request
+            r = app.get('/wmts/lay/g/%02d/%d/%d/%d/%d.txt' % (l, col, row, ci, cj), status='*')
+        else:
+            r = app.get(base + '&REQUEST=GetFeatureInfo&INFOFORMAT=text/plain&I=%d&J=%d' % (ci, cj))
         new = app.info_log[n0:]
         if r.status_int == 200 and len(new) == 0:
             continue          # the source was not asked (tile pixel outside its coverage)
@@ -213,7 +218,7 @@ def observe_wmts_infos(app, g, rng, n, problems):
         ub = [float(v) / app.scale for v in u['BBOX'].split(',')]
         infos.append({'q': rect + [g['tw'], g['th']], 'ci': ci, 'cj': cj,
                       'u': [int(round(v)) for v in ub] + [int(u['WIDTH']), int(u['HEIGHT'])], 'ui': int(u.get('X', u.get('I'))),
-                      'uj': int(u.get('Y', u.get('J'))), 'kind': 'wmts', 'addr': [col, row, l]})
+                      'uj': int(u.get('Y', u.get('J'))), 'kind': 'wmts-rest' if rest else 'wmts', 'addr': [col, row, l]})
     return infos
 
 
